@@ -565,3 +565,9 @@ Proof.
   revert g; induction ops as [|o r IH]; intros g; simpl; [reflexivity|].
   destruct (gw_step g o) as [g' x] eqn:E. simpl. rewrite IH. reflexivity.
 Qed.
+
+Lemma single_shard : forall name, shard_id name 1 = Some 0.
+Proof.
+  intros name. destruct (shard_id_range name 1) as [z [Hz Hr]]; [unfold two32; lia|].
+  rewrite Hz. f_equal. lia.
+Qed.
